@@ -12,7 +12,8 @@ RULE = ("Hypothesis trajectories/paths (2-40 poses drawn, bulk 500; all coordina
         "reordering changes the data) x 7 plot modes x length units {mm,cm,m,km} x with/without timestamps x start time {None, t0, "
         "other} x start/end markers x marker scale x correspondence edges; error arrays with/without x array, cumulative; Agg "
         "backend, artists inspected after each call (no rendering). Non-trivial = asymmetric trajectory; distinct by SHA-1"
-        " Round-3 additions: another figure being pyplot's current one; x arrays with repeated and unsorted values.")
+        " Round-3 additions: another figure being pyplot's current one; x arrays with repeated and unsorted values."
+        " Round-7 addition: correspondence edges with a first trajectory whose positions are int64 / float32 while the second is float64.")
 ASSUMPTIONS = ["the artists' data (Line2D/Line3D data, LineCollection segments, scatter offsets, label strings, tick formatter output) "
                "is what matplotlib would draw",
                "roll/pitch/yaw: the plotted angles must reconstruct the pose's rotation in the configured (default sxyz) sequence"]
